@@ -16,20 +16,20 @@ Open Scope string_scope.
 
 Definition spec_methods : list gmethod := [
   mkgm "Attach" ["name"] "" ""
-    [mkgs (GAlways) "tattach" [("fid", GNewFid); ("Auth.AttachName", GParam "name"); ("Auth.Authenticationfid", GConst "noFID"); ("Auth.UID", GConst "NoUID")] "rattach" "" ["c.newFile(fid(id))"; "nil"] true]
+    [mkgs (GAlways) "tattach" [("fid", GNewFid); ("Auth.AttachName", GParam "name"); ("Auth.Authenticationfid", GConst "noFID"); ("Auth.UID", GConst "NoUID")] "rattach" "" ["c.newFile(fid(id))"; "nil"] "refused"]
     true false [];
   mkgm "Close" [] "cas" ""
-    [mkgs (GAlways) "tclunk" [("fid", GRecvFid)] "rclunk" "" ["nil"] false]
+    [mkgs (GAlways) "tclunk" [("fid", GRecvFid)] "rclunk" "" ["nil"] ""]
     false true [];
   mkgm "Create" ["name"; "openFlags"; "permissions"; "uid"; "gid"] "load" ""
-    [mkgs (GWhen "versionSupportsTucreation") "tucreate" [("fid", GRecvFid); ("Name", GParam "name"); ("OpenFlags", GParam "openFlags"); ("Permissions", GParam "permissions"); ("GID", GParam "gid"); ("UID", GParam "uid")] "rucreate" "" ["c"; "rucreate.QID"; "rucreate.IoUnit"; "nil"] false;
-     mkgs (GUnless "versionSupportsTucreation") "tlcreate" [("fid", GRecvFid); ("Name", GParam "name"); ("OpenFlags", GParam "openFlags"); ("Permissions", GParam "permissions"); ("GID", GConst "NoGID")] "rlcreate" "" ["c"; "rlcreate.QID"; "rlcreate.IoUnit"; "nil"] false]
+    [mkgs (GWhen "versionSupportsTucreation") "tucreate" [("fid", GRecvFid); ("Name", GParam "name"); ("OpenFlags", GParam "openFlags"); ("Permissions", GParam "permissions"); ("GID", GParam "gid"); ("UID", GParam "uid")] "rucreate" "" ["c"; "rucreate.QID"; "rucreate.IoUnit"; "nil"] "";
+     mkgs (GUnless "versionSupportsTucreation") "tlcreate" [("fid", GRecvFid); ("Name", GParam "name"); ("OpenFlags", GParam "openFlags"); ("Permissions", GParam "permissions"); ("GID", GConst "NoGID")] "rlcreate" "" ["c"; "rlcreate.QID"; "rlcreate.IoUnit"; "nil"] ""]
     false false [];
   mkgm "FSync" [] "load" ""
-    [mkgs (GAlways) "tfsync" [("fid", GRecvFid)] "rfsync" "" ["err"] false]
+    [mkgs (GAlways) "tfsync" [("fid", GRecvFid)] "rfsync" "" ["err"] ""]
     false false [];
   mkgm "GetAttr" ["req"] "load" ""
-    [mkgs (GAlways) "tgetattr" [("fid", GRecvFid); ("AttrMask", GParam "req")] "rgetattr" "" ["rgetattr.QID"; "rgetattr.Valid"; "rgetattr.Attr"; "nil"] false]
+    [mkgs (GAlways) "tgetattr" [("fid", GRecvFid); ("AttrMask", GParam "req")] "rgetattr" "" ["rgetattr.QID"; "rgetattr.Valid"; "rgetattr.Attr"; "nil"] ""]
     false false [];
   mkgm "GetXattr" ["attr"] "" ""
     []
@@ -37,7 +37,7 @@ Definition spec_methods : list gmethod := [
      "if err != nil { return nil, err }";
      "return buf, nil"];
   mkgm "Link" ["target"; "newname"] "load" ""
-    [mkgs (GAlways) "tlink" [("Directory", GRecvFid); ("Name", GParam "newname"); ("Target", GParamFid "target")] "rlink" "" ["err"] false]
+    [mkgs (GAlways) "tlink" [("Directory", GRecvFid); ("Name", GParam "newname"); ("Target", GParamFid "target")] "rlink" "" ["err"] ""]
     false false [];
   mkgm "ListXattrs" [] "" ""
     []
@@ -47,64 +47,64 @@ Definition spec_methods : list gmethod := [
      "for _, name := range strings.Split(string(buf), ""\x00"") { if name != """" { names = append(names, name) } }";
      "return names, nil"];
   mkgm "Lock" ["pid"; "locktype"; "flags"; "start"; "length"; "client"] "load" ""
-    [mkgs (GAlways) "tlock" [("fid", GRecvFid); ("Type", GParam "locktype"); ("Flags", GParam "flags"); ("Start", GParam "start"); ("Length", GParam "length"); ("PID", GConv "int32" (GParam "pid")); ("Client", GParam "client")] "rlock" "" ["r.Status"; "err"] false]
+    [mkgs (GAlways) "tlock" [("fid", GRecvFid); ("Type", GParam "locktype"); ("Flags", GParam "flags"); ("Start", GParam "start"); ("Length", GParam "length"); ("PID", GConv "int32" (GParam "pid")); ("Client", GParam "client")] "rlock" "" ["r.Status"; "err"] ""]
     false false [];
   mkgm "Mkdir" ["name"; "permissions"; "uid"; "gid"] "load" ""
-    [mkgs (GWhen "versionSupportsTucreation") "tumkdir" [("Directory", GRecvFid); ("Name", GParam "name"); ("Permissions", GParam "permissions"); ("GID", GParam "gid"); ("UID", GParam "uid")] "rumkdir" "" ["rumkdir.QID"; "nil"] false;
-     mkgs (GUnless "versionSupportsTucreation") "tmkdir" [("Directory", GRecvFid); ("Name", GParam "name"); ("Permissions", GParam "permissions"); ("GID", GConst "NoGID")] "rmkdir" "" ["rmkdir.QID"; "nil"] false]
+    [mkgs (GWhen "versionSupportsTucreation") "tumkdir" [("Directory", GRecvFid); ("Name", GParam "name"); ("Permissions", GParam "permissions"); ("GID", GParam "gid"); ("UID", GParam "uid")] "rumkdir" "" ["rumkdir.QID"; "nil"] "";
+     mkgs (GUnless "versionSupportsTucreation") "tmkdir" [("Directory", GRecvFid); ("Name", GParam "name"); ("Permissions", GParam "permissions"); ("GID", GConst "NoGID")] "rmkdir" "" ["rmkdir.QID"; "nil"] ""]
     false false [];
   mkgm "Mknod" ["name"; "mode"; "major"; "minor"; "uid"; "gid"] "load" ""
-    [mkgs (GWhen "versionSupportsTucreation") "tumknod" [("Directory", GRecvFid); ("Name", GParam "name"); ("Mode", GParam "mode"); ("Major", GParam "major"); ("Minor", GParam "minor"); ("GID", GParam "gid"); ("UID", GParam "uid")] "rumknod" "" ["rumknod.QID"; "nil"] false;
-     mkgs (GUnless "versionSupportsTucreation") "tmknod" [("Directory", GRecvFid); ("Name", GParam "name"); ("Mode", GParam "mode"); ("Major", GParam "major"); ("Minor", GParam "minor"); ("GID", GConst "NoGID")] "rmknod" "" ["rmknod.QID"; "nil"] false]
+    [mkgs (GWhen "versionSupportsTucreation") "tumknod" [("Directory", GRecvFid); ("Name", GParam "name"); ("Mode", GParam "mode"); ("Major", GParam "major"); ("Minor", GParam "minor"); ("GID", GParam "gid"); ("UID", GParam "uid")] "rumknod" "" ["rumknod.QID"; "nil"] "";
+     mkgs (GUnless "versionSupportsTucreation") "tmknod" [("Directory", GRecvFid); ("Name", GParam "name"); ("Mode", GParam "mode"); ("Major", GParam "major"); ("Minor", GParam "minor"); ("GID", GConst "NoGID")] "rmknod" "" ["rmknod.QID"; "nil"] ""]
     false false [];
   mkgm "Open" ["flags"] "load" ""
-    [mkgs (GAlways) "tlopen" [("fid", GRecvFid); ("Flags", GParam "flags")] "rlopen" "" ["rlopen.QID"; "rlopen.IoUnit"; "nil"] false]
+    [mkgs (GAlways) "tlopen" [("fid", GRecvFid); ("Flags", GParam "flags")] "rlopen" "" ["rlopen.QID"; "rlopen.IoUnit"; "nil"] ""]
     false false [];
   mkgm "ReadAt" ["p"; "offset"] "" ""
     []
     false false ["return chunk(c.client.payloadSize, c.readAt, p, offset)"];
   mkgm "Readdir" ["offset"; "count"] "load" ""
-    [mkgs (GAlways) "treaddir" [("Directory", GRecvFid); ("Offset", GParam "offset"); ("Count", GClamped "count")] "rreaddir" "" ["rreaddir.Entries"; "nil"] false]
+    [mkgs (GAlways) "treaddir" [("Directory", GRecvFid); ("Offset", GParam "offset"); ("Count", GClamped "count")] "rreaddir" "" ["rreaddir.Entries"; "nil"] ""]
     false false [];
   mkgm "Readlink" [] "load" ""
-    [mkgs (GAlways) "treadlink" [("fid", GRecvFid)] "rreadlink" "" ["rreadlink.Target"; "nil"] false]
+    [mkgs (GAlways) "treadlink" [("fid", GRecvFid)] "rreadlink" "" ["rreadlink.Target"; "nil"] ""]
     false false [];
   mkgm "Remove" [] "cas" ""
-    [mkgs (GAlways) "tremove" [("fid", GRecvFid)] "rremove" "" ["nil"] false]
+    [mkgs (GAlways) "tremove" [("fid", GRecvFid)] "rremove" "" ["nil"] ""]
     false true [];
   mkgm "RemoveXattr" ["attr"] "" "ENOSYS"
     []
     false false [];
   mkgm "Rename" ["dir"; "name"] "load" ""
-    [mkgs (GAlways) "trename" [("fid", GRecvFid); ("Directory", GParamFid "dir"); ("Name", GParam "name")] "rrename" "" ["err"] false]
+    [mkgs (GAlways) "trename" [("fid", GRecvFid); ("Directory", GParamFid "dir"); ("Name", GParam "name")] "rrename" "" ["err"] ""]
     false false [];
   mkgm "RenameAt" ["oldname"; "newdir"; "newname"] "load" ""
-    [mkgs (GAlways) "trenameat" [("OldDirectory", GRecvFid); ("OldName", GParam "oldname"); ("NewDirectory", GParamFid "newdir"); ("NewName", GParam "newname")] "rrenameat" "" ["err"] false]
+    [mkgs (GAlways) "trenameat" [("OldDirectory", GRecvFid); ("OldName", GParam "oldname"); ("NewDirectory", GParamFid "newdir"); ("NewName", GParam "newname")] "rrenameat" "" ["err"] ""]
     false false [];
   mkgm "Renamed" ["newDir"; "newName"] "" ""
     []
     false false [];
   mkgm "SetAttr" ["valid"; "attr"] "load" ""
-    [mkgs (GAlways) "tsetattr" [("fid", GRecvFid); ("Valid", GParam "valid"); ("SetAttr", GParam "attr")] "rsetattr" "" ["err"] false]
+    [mkgs (GAlways) "tsetattr" [("fid", GRecvFid); ("Valid", GParam "valid"); ("SetAttr", GParam "attr")] "rsetattr" "" ["err"] ""]
     false false [];
   mkgm "SetXattr" ["attr"; "data"; "flags"] "" "ENOSYS"
     []
     false false [];
   mkgm "StatFS" [] "load" ""
-    [mkgs (GAlways) "tstatfs" [("fid", GRecvFid)] "rstatfs" "" ["rstatfs.FSStat"; "nil"] false]
+    [mkgs (GAlways) "tstatfs" [("fid", GRecvFid)] "rstatfs" "" ["rstatfs.FSStat"; "nil"] ""]
     false false [];
   mkgm "Symlink" ["oldname"; "newname"; "uid"; "gid"] "load" ""
-    [mkgs (GWhen "versionSupportsTucreation") "tusymlink" [("Directory", GRecvFid); ("Name", GParam "newname"); ("Target", GParam "oldname"); ("GID", GParam "gid"); ("UID", GParam "uid")] "rusymlink" "" ["rusymlink.QID"; "nil"] false;
-     mkgs (GUnless "versionSupportsTucreation") "tsymlink" [("Directory", GRecvFid); ("Name", GParam "newname"); ("Target", GParam "oldname"); ("GID", GConst "NoGID")] "rsymlink" "" ["rsymlink.QID"; "nil"] false]
+    [mkgs (GWhen "versionSupportsTucreation") "tusymlink" [("Directory", GRecvFid); ("Name", GParam "newname"); ("Target", GParam "oldname"); ("GID", GParam "gid"); ("UID", GParam "uid")] "rusymlink" "" ["rusymlink.QID"; "nil"] "";
+     mkgs (GUnless "versionSupportsTucreation") "tsymlink" [("Directory", GRecvFid); ("Name", GParam "newname"); ("Target", GParam "oldname"); ("GID", GConst "NoGID")] "rsymlink" "" ["rsymlink.QID"; "nil"] ""]
     false false [];
   mkgm "UnlinkAt" ["name"; "flags"] "load" ""
-    [mkgs (GAlways) "tunlinkat" [("Directory", GRecvFid); ("Name", GParam "name"); ("Flags", GParam "flags")] "runlinkat" "" ["err"] false]
+    [mkgs (GAlways) "tunlinkat" [("Directory", GRecvFid); ("Name", GParam "name"); ("Flags", GParam "flags")] "runlinkat" "" ["err"] ""]
     false false [];
   mkgm "Walk" ["names"] "load" ""
-    [mkgs (GAlways) "twalk" [("fid", GRecvFid); ("newFID", GNewFid); ("Names", GParam "names")] "rwalk" "" ["rwalk.QIDs"; "c.client.newFile(fid(id))"; "nil"] true]
+    [mkgs (GAlways) "twalk" [("fid", GRecvFid); ("newFID", GNewFid); ("Names", GParam "names")] "rwalk" "" ["rwalk.QIDs"; "c.client.newFile(fid(id))"; "nil"] "refused"]
     true false [];
   mkgm "WalkGetAttr" ["components"] "load" ""
-    [mkgs (GWhen "versionSupportsTwalkgetattr") "twalkgetattr" [("fid", GRecvFid); ("newFID", GNewFid); ("Names", GParam "components")] "rwalkgetattr" "" ["rwalkgetattr.QIDs"; "c.client.newFile(fid(id))"; "rwalkgetattr.Valid"; "rwalkgetattr.Attr"; "nil"] true]
+    [mkgs (GWhen "versionSupportsTwalkgetattr") "twalkgetattr" [("fid", GRecvFid); ("newFID", GNewFid); ("Names", GParam "components")] "rwalkgetattr" "" ["rwalkgetattr.QIDs"; "c.client.newFile(fid(id))"; "rwalkgetattr.Valid"; "rwalkgetattr.Attr"; "nil"] "refused"]
     true false ["unless versionSupportsTwalkgetattr { qids, file, err := c.Walk(components) if err != nil { return nil, nil, AttrMask{}, Attr{}, err } _, valid, attr, err := file.GetAttr(AttrMaskAll) if err != nil { file.Close() return nil, nil, AttrMask{}, Attr{}, err } return qids, file, valid, attr, nil }"];
   mkgm "WriteAt" ["p"; "offset"] "" ""
     []
@@ -115,12 +115,12 @@ Definition spec_methods : list gmethod := [
      "runtime.SetFinalizer(cf, (*clientFile).Close)";
      "return cf"];
   mkgm "readAt" ["p"; "offset"] "load" ""
-    [mkgs (GAlways) "tread" [("fid", GRecvFid); ("Offset", GConv "uint64" (GParam "offset")); ("Count", GLen "uint32" "p")] "rread" "Data<-p" [] false]
+    [mkgs (GAlways) "tread" [("fid", GRecvFid); ("Offset", GConv "uint64" (GParam "offset")); ("Count", GLen "uint32" "p")] "rread" "Data<-p" [] ""]
     false false ["if len(p) > 0 && len(rread.Data) > 0 && &rread.Data[0] != &p[0] { copy(p, rread.Data) }";
      "if len(rread.Data) == 0 && len(p) > 0 { return 0, io.EOF }";
      "return len(rread.Data), nil"];
   mkgm "writeAt" ["p"; "offset"] "load" ""
-    [mkgs (GAlways) "twrite" [("fid", GRecvFid); ("Offset", GConv "uint64" (GParam "offset")); ("Data", GParam "p")] "rwrite" "" [] false]
+    [mkgs (GAlways) "twrite" [("fid", GRecvFid); ("Offset", GConv "uint64" (GParam "offset")); ("Data", GParam "p")] "rwrite" "" [] ""]
     false false ["return int(rwrite.Count), nil"];
   mkgm "xattrWalkRead" ["attr"] "" ""
     []
@@ -128,13 +128,13 @@ Definition spec_methods : list gmethod := [
      "id, ok := c.client.fidPool.Get()";
      "if !ok { return nil, ErrOutOfFIDs }";
      "rxattrwalk := rxattrwalk{}";
-     "if err := c.client.sendRecv(&txattrwalk{fid: c.fid, newFID: fid(id), Name: attr}, &rxattrwalk); err != nil { c.client.fidPool.Put(id) return nil, err }";
+     "if err := c.client.sendRecv(&txattrwalk{fid: c.fid, newFID: fid(id), Name: attr}, &rxattrwalk); err != nil { c.client.releaseFID(id, err) return nil, err }";
      "xattrFile := c.client.newFile(fid(id))";
      "defer xattrFile.Close()";
      "if rxattrwalk.Size == 0 { return []byte{}, nil }";
      "buf := make([]byte, rxattrwalk.Size)";
      "n, err := xattrFile.ReadAt(buf, 0)";
-     "if err != nil && !errors.Is(err, io.EOF) { return nil, err }";
+     "if err != nil && err != io.EOF { return nil, err }";
      "return buf[:n], nil"]
 ].
 
